@@ -2,6 +2,7 @@ package geojson
 
 import (
 	"encoding/json"
+	"math"
 
 	"github.com/ctessum/geom"
 )
@@ -13,10 +14,12 @@ func decodeCoordinates(jsonCoordinates interface{}) []float64 {
 	}
 	coordinates := make([]float64, len(array))
 	for i, element := range array {
-		var ok bool
-		if coordinates[i], ok = element.(float64); !ok {
+		f, ok := element.(float64)
+		if !ok || math.IsNaN(f) || math.IsInf(f, 0) {
+			// not a number, or a number that GeoJSON cannot express
 			panic(&InvalidGeometryError{})
 		}
+		coordinates[i] = f
 	}
 	return coordinates
 }
